@@ -138,12 +138,43 @@ func (t *Table) del(key, rangeEnd []byte, prev, count bool) OpResp {
 // Apply applies one log entry (index, cmd) and returns what the replica must answer.
 func (t *Table) Apply(index uint64, cmd *pb.Command) Result {
 	res := Result{Value: 1}
+	if cmd.Type == pb.Command_SEQUENCE {
+		pending := t.Leader
+		t.applySeq(cmd, &res, &pending)
+		t.Applied = index
+		t.Leader = pending
+		return res
+	}
 	t.applyCmd(cmd, &res, true)
 	t.Applied = index
 	if cmd.LeaderIndex != nil {
 		t.Leader = *cmd.LeaderIndex
 	}
 	return res
+}
+
+// applySeq: a replicated sequence. Leader commands that carry a leader index take effect once, in
+// leader order (those at or below the index recorded so far are skipped); a sequence never moves
+// the recorded index backwards unless it applied something.
+func (t *Table) applySeq(cmd *pb.Command, res *Result, pending *uint64) {
+	recorded, applied, fresh := *pending, *pending, false
+	for _, c := range cmd.Sequence {
+		if c.LeaderIndex != nil {
+			if *c.LeaderIndex <= applied {
+				continue
+			}
+			applied = *c.LeaderIndex
+		}
+		fresh = true
+		if c.Type == pb.Command_SEQUENCE {
+			t.applySeq(c, res, pending)
+		} else {
+			t.applyCmd(c, res, false)
+		}
+	}
+	if cmd.LeaderIndex != nil && (fresh || *cmd.LeaderIndex >= recorded) {
+		*pending = *cmd.LeaderIndex
+	}
 }
 
 func (t *Table) applyCmd(cmd *pb.Command, res *Result, top bool) {
